@@ -60,7 +60,7 @@ def run(tier, res, is_known):
     if tier == 'quick':
         # from the empty state no fill is reachable within depth 4 (it needs 5 events), so the fee model is irrelevant
         # there; the funded-and-flat state (1) is a prefix of the long state (2) and gets one level less
-        plan = [(FEES_QUICK[0], 0, 'USD', depth), (FEES_QUICK[0], 1, 'USD', depth - 1), (FEES_QUICK[0], 2, 'USD', depth),
+        plan = [(FEES_QUICK[0], 0, 'USD', depth), (FEES_QUICK[0], 1, 'USD', depth - 1), (FEES_QUICK[0], 2, 'USD', depth - 1),
                 (FEES_QUICK[0], 3, 'USD', depth), (FEES_QUICK[1], 2, 'USD', depth - 1), (FEES_QUICK[1], 3, 'USD', depth),
                 (('pct', '0.00004', '0'), 3, 'USD', depth),      # commissions below half a cent
                 (FEES_QUICK[1], 3, 'GBP', depth)]               # the account need not be in USD
